@@ -19,7 +19,7 @@ RULE = ("histories as in C04 extended with copy() and overwrite=True re-creation
         "values[start_k:end_k] equal to the model; non-trivial as C04; distinct = canonical spec")
 ASSUMPTIONS = c04.ASSUMPTIONS + ["decoder implements the documented format only (README text of the ragged array)"]
 EXHAUSTIVE = None
-MUST_HIT = ['ops-inside-open-context', 'n=0-after-having-subarrays', 'trailing-zero-length', 'overwrite-recreate', 'copy', 'how:create', 'how:as']
+MUST_HIT = ['append-beyond-index-type', 'overfill-raised', 'ops-inside-open-context', 'n=0-after-having-subarrays', 'trailing-zero-length', 'overwrite-recreate', 'copy', 'how:create', 'how:as']
 
 
 def execute(ctx, spec):
@@ -39,11 +39,16 @@ def task_random(ctx, col, shard, n, max_ops):
     hyp_search(ctx, col, rhist.st_growth_history(max_ops=max_ops + 4), lambda s: execute(ctx, s), shard_seed(ctx, shard) + 13, max(10, n // 3))
 
 
+def task_fixed(ctx, col):
+    # C04's fixed histories (index types filled exactly / beyond their range, thousands of subarrays) decoded from the raw files
+    enum_search(ctx, col, itertools.chain(c04.long_specs(), c04.fixed_specs()), lambda s: execute(ctx, s))
+
+
 def tasks(ctx):
     global EXHAUSTIVE
     L = ctx.pick(3, 4)
     EXHAUSTIVE = f"all op sequences of length <= {L} over C04's 8-op alphabet from 3 start states"
-    t = []
+    t = [(task_fixed, {})]
     for sh in range(NSHARDS):
         t.append((task_enum, dict(shard=sh, L=L)))
         t.append((task_random, dict(shard=sh, n=ctx.pick(100, 1300), max_ops=ctx.pick(8, 25))))
